@@ -449,6 +449,14 @@ pub fn judge(case: &Case, o: &Outcome) -> Vec<(String, String)> {
             if !closes.is_empty() {
                 out.push((format!("C03:{role}:fin-before-headers-closed-connection"), format!("{ctx}: close({:#x})", closes[0])));
             }
+            // "refused": the peer learns of it - the response stream is aborted with that code (RFC 9114 4.1), not
+            // left to end as an empty response
+            if m.head == want && !o.resets.contains(&auto::H3_REQUEST_INCOMPLETE) {
+                out.push((
+                    format!("C03:{role}:fin-before-headers:response-stream-not-reset"),
+                    format!("{ctx}: resolve_request reported H3_REQUEST_INCOMPLETE but the response stream was not reset with it (reset calls {:x?}, stop_sending calls {:x?})", o.resets, o.stops),
+                ));
+            }
         }
         Stop::NeedMore => {
             // the call of the current phase must be the pending one; nothing may have failed
